@@ -9,45 +9,43 @@
 From Coq Require Import List Arith Bool Lia.
 Import ListNotations.
 
-Section Scope.
-Variables (pm tm pi ti : nat).      (* MaxAttempts and IntervalSeconds of the fan-out's and of the Task's retrier; back-off 1 and 2 *)
+(* pm, pi: MaxAttempts and IntervalSeconds of the fan-out's retrier (back-off 1); tm, ti: those of the Task's retrier (back-off 2) *)
 
 Record regs := { ctx : nat; saved : nat }.
 
 Definition enter (r : regs) : regs := {| ctx := 0; saved := ctx r |}.
-Definition inner_fail (r : regs) : option (nat * regs) :=
+Definition inner_fail (tm ti : nat) (r : regs) : option (nat * regs) :=
   if ctx r <? tm then Some (ti * 2 ^ ctx r, {| ctx := S (ctx r); saved := saved r |}) else None.
 Definition collect (r : regs) : regs := {| ctx := saved r; saved := saved r |}.
-Definition outer_fail (r : regs) : option (nat * regs) :=
+Definition outer_fail (pm pi : nat) (r : regs) : option (nat * regs) :=
   if ctx r <? pm then Some (pi, {| ctx := S (ctx r); saved := saved r |}) else None.
 
 (* the Task is invoked, fails, is retried ... until its retrier gives up: the delays before each re-invocation *)
-Fixpoint inner_loop (fuel : nat) (r : regs) : list nat * regs :=
+Fixpoint inner_loop (tm ti : nat) (fuel : nat) (r : regs) : list nat * regs :=
   match fuel with
   | 0 => ([], r)
-  | S f => match inner_fail r with
-           | Some (d, r') => let '(ds, r'') := inner_loop f r' in (d :: ds, r'')
+  | S f => match inner_fail tm ti r with
+           | Some (d, r') => let '(ds, r'') := inner_loop tm ti f r' in (d :: ds, r'')
            | None => ([], r)
            end
   end.
 
 (* the whole visit: the delays between consecutive invocations of the Task *)
-Fixpoint run (fuel : nat) (r : regs) : list nat :=
+Fixpoint run (pm tm pi ti : nat) (fuel : nat) (r : regs) : list nat :=
   match fuel with
   | 0 => []
-  | S f => let '(ds, r2) := inner_loop (S tm) (enter r) in
-           match outer_fail (collect r2) with
-           | Some (d, r4) => ds ++ d :: run f r4
+  | S f => let '(ds, r2) := inner_loop tm ti (S tm) (enter r) in
+           match outer_fail pm pi (collect r2) with
+           | Some (d, r4) => ds ++ d :: run pm tm pi ti f r4
            | None => ds
            end
   end.
 
 (* what the States Language prescribes: every attempt of the fan-out gives the Task its full back-off sequence from the
    start, and the attempts are separated by the fan-out's own interval, at most pm times *)
-Definition task_delays : list nat := map (fun k => ti * 2 ^ k) (seq 0 tm).
-Fixpoint spec (attempts_left : nat) : list nat :=
+Definition task_delays (tm ti : nat) : list nat := map (fun k => ti * 2 ^ k) (seq 0 tm).
+Fixpoint spec (tm pi ti : nat) (attempts_left : nat) : list nat :=
   match attempts_left with
-  | 0 => task_delays
-  | S a => task_delays ++ pi :: spec a
+  | 0 => task_delays tm ti
+  | S a => task_delays tm ti ++ pi :: spec tm pi ti a
   end.
-End Scope.
